@@ -211,9 +211,39 @@ def long_list_marking(g, cid, o, rng):
         return None
     n = rng.choice(lists)
     x = dict(o)
-    x[n] = ["item-%02d" % i for i in range(12)]
-    x["granular_markings"] = [{"selectors": ["%s.[%d]" % (n, rng.choice([10, 11]))], "marking_ref": "marking-definition--" + g.uuid()}]
+    size = rng.choice([12, 12, 101, 102, 256, 1001])
+    x[n] = ["item-%04d" % i for i in range(size)]
+    idx = rng.choice([10, 11]) if size == 12 else rng.choice([size - 1, size - 2, 100])
+    x["granular_markings"] = [{"selectors": ["%s.[%d]" % (n, idx), "%s.[0]" % n], "marking_ref": "marking-definition--" + g.uuid()}]
     return x
+
+
+def dict_and_socket_candidates(g, rng):
+    """Every dictionary-kind property of every class with a key exactly on the length bounds of ITS specification
+    version (2.0: 3 and 256; 2.1: 1 and 250), and socket-ext `options` with every legal key shape (family prefix followed
+    by one, two or more underscore-separated parts)."""
+    out = []
+    for cid, c in g.classes.items():
+        for s in c["slots"]:
+            k = s["kind"]
+            if k["k"] != "dict":
+                continue
+            for n in ((3, 256, 255) if k["ver"] == "2.0" else (1, 250, 249)):
+                x = dict(g.obj(cid, 0, {"safe": True}, optional_p=0.3))
+                val = 1 if (c["name"] == "SocketExt" and s["name"] == "options") else "v"
+                key = ("SO_" + "k" * (n - 3)) if (c["name"] == "SocketExt" and s["name"] == "options" and n >= 3) else "k" * n
+                if c["name"] == "SocketExt" and s["name"] == "options" and n < 3:
+                    continue
+                if c["name"] == "LanguageContent":
+                    continue
+                x[s["name"]] = {key: val}
+                out.append((cid, x, "dict-key-on-bound"))
+        if c["name"] == "SocketExt":
+            for i in range(0, len(stixgen.SOCKET_KEYS), 3):
+                x = dict(g.obj(cid, 0, {"safe": True}, optional_p=0.3))
+                x["options"] = {key: 7 for key in stixgen.SOCKET_KEYS[i:i + 3]}
+                out.append((cid, x, "socket-option-keys"))
+    return out
 
 
 TARGETS = {
@@ -661,6 +691,7 @@ def check(run):
     cands += fraction_sweep(g, run.rng, 160 if quick else 1500)
     cands += extension_orders(g, run.rng)
     cands += bound_candidates(g, run.rng)
+    cands += dict_and_socket_candidates(g, run.rng)
     cands += witness_candidates()
     failures, live = [], None
     if gen_ok:
